@@ -107,6 +107,13 @@ def read_tree(pq, path):
     return dec(r[1]), None
 
 
+def tree_of_bytes(pq, footer, what):
+    r = pq.call("thrift_dec", 1, footer)
+    if (r[0].decode() if isinstance(r[0], bytes) else r[0]) != "ok" or r[2] != 0:
+        return None, "%s does not parse with the strict specification reader: %r" % (what, r[:2])
+    return dec(r[1]), None
+
+
 def write_tree(pq, path, tree):
     data = open(path, "rb").read()
     head, _ = split_footer(data, False)
@@ -213,7 +220,68 @@ def decorate(tree, d):
 
 # ---- the edit paths ---------------------------------------------------------------------------------------------
 
-EDITS = ["update_file_data", "update_file_metadata", "handle_update", "merge", "append_hive", "append_simple", "remove_row_groups"]
+EDITS = ["update_file_data", "update_file_metadata", "handle_update", "merge", "append_hive", "append_simple", "remove_row_groups",
+         # wave 4: a handle that OBSERVED (read-only API) and / or was INPUT of a multi-file open, then re-serialises its metadata
+         "observe_write_common", "observe_pickle", "observe_handle_append", "input_of_many"]
+
+# read-only API of a handle: whatever is called, the metadata the handle later re-serialises must be the metadata it read
+OBSERVERS = ["statistics", "sorted_partitioned_columns", "to_pandas", "filters", "row_filter", "head", "dtypes", "info", "count",
+             "columns", "str", "getitem", "iter_row_groups", "key_value_metadata", "pandas_metadata", "schema_text", "copy", "deepcopy",
+             "pickle_dumps", "categories", "check_categories"]
+
+
+def observe(pf, names, info):
+    import copy as _copy
+    import pickle
+    from fastparquet import api
+    for name in names:
+        try:
+            if name == "statistics":
+                pf.statistics
+            elif name == "sorted_partitioned_columns":
+                api.sorted_partitioned_columns(pf)
+            elif name == "to_pandas":
+                pf.to_pandas()
+            elif name == "filters":
+                pf.to_pandas(filters=[("i", ">", 2)])
+                pf.to_pandas(filters=[("s", "==", "v1")])
+            elif name == "row_filter":
+                pf.to_pandas(filters=[("i", ">=", 1)], row_filter=True)
+            elif name == "head":
+                pf.head(2)
+            elif name == "dtypes":
+                pf.dtypes
+            elif name == "info":
+                pf.info
+            elif name == "count":
+                pf.count(), pf.count(filters=[("i", ">", 2)])
+            elif name == "columns":
+                pf.columns
+            elif name == "str":
+                str(pf), repr(pf)
+            elif name == "getitem":
+                pf[0], pf[:1], pf[-1]
+            elif name == "iter_row_groups":
+                for _ in pf.iter_row_groups():
+                    pass
+            elif name == "key_value_metadata":
+                dict(pf.key_value_metadata)
+            elif name == "pandas_metadata":
+                pf.pandas_metadata
+            elif name == "schema_text":
+                pf.schema.text
+            elif name == "copy":
+                _copy.copy(pf)
+            elif name == "deepcopy":
+                _copy.deepcopy(pf)
+            elif name == "pickle_dumps":
+                pickle.dumps(pf)
+            elif name == "categories":
+                pf.categories
+            elif name == "check_categories":
+                pf.check_categories(None)
+        except Exception as e:      # noqa  (an observer that raises on a legal footer belongs to other properties: recorded, not judged here)
+            info.setdefault("observer_raised", []).append("%s: %s" % (name, type(e).__name__))
 
 
 def gen_case(rng):
@@ -222,8 +290,15 @@ def gen_case(rng):
     for _ in range(rng.choice([1, 1, 2])):
         k = rng.choice(["newkey", "empty", "bin", "other", "kéy"])          # never the repeated key: those are "entries nobody touched"
         upd[k] = rng.choice([None, "x", "", "new value é"])
-    return {"edit": edit, "decor": gen_decor(rng), "update": upd, "nrows": rng.choice([6, 30]),
-            "cat": rng.random() < 0.5, "compression": rng.choice([None, "SNAPPY"])}
+    decor = gen_decor(rng)
+    obs = rng.sample(OBSERVERS, rng.choice([1, 2, 4, len(OBSERVERS)]))
+    if rng.random() < 0.5 and "statistics" not in obs:
+        obs.insert(rng.randrange(len(obs) + 1), "statistics")
+    if rng.random() < 0.6:
+        decor["stats_v2_only"] = True       # statistics with min_value / max_value only: what parquet-mr >= 1.10 and arrow write
+    return {"edit": edit, "decor": decor, "update": upd, "nrows": rng.choice([6, 30]),
+            "cat": rng.random() < 0.5, "compression": rng.choice([None, "SNAPPY"]), "observe": obs,
+            "many_op": rng.choice(["ParquetFile([...])", "merge([...])"])}
 
 
 def _frame(n, off=0, cat=False):
@@ -338,6 +413,7 @@ def run_case(case, scratch, pq, tag):
             compare(before[path], after, problems, upd=upd)
         elif edit == "handle_update":
             pf = ParquetFile(root)
+            observe(pf, case.get("observe", []), info)
             update_custom_metadata(pf, upd)
             pf._write_common_metadata()
             after, err = read_tree(pq, path)
@@ -378,6 +454,7 @@ def run_case(case, scratch, pq, tag):
                 problems.append("num_rows after append: %r" % (get(after, 3)[1],))
         elif edit == "remove_row_groups":
             pf = ParquetFile(root)
+            observe(pf, case.get("observe", []), info)
             pf.remove_row_groups(pf.row_groups[0])
             after, err = read_tree(pq, path)
             if err:
@@ -386,6 +463,73 @@ def run_case(case, scratch, pq, tag):
             want_rows = get(before[path], 3)[1] - get(get(before[path], 4)[2][0], 3)[1]
             if get(after, 3)[1] != want_rows:
                 problems.append("num_rows after removing the first row group: %r, expected %r" % (get(after, 3)[1], want_rows))
+        elif edit == "observe_write_common":
+            pf = ParquetFile(root)
+            observe(pf, case.get("observe", []), info)
+            pf._write_common_metadata()
+            after, err = read_tree(pq, path)
+            if err:
+                return [err], info
+            compare(before[path], after, problems, pandas_json=True)
+            common, err = read_tree(pq, os.path.join(root, "_common_metadata"))
+            if err:
+                return [err], info
+            compare(before[path], common, problems, rgs="none", pandas_json=True)
+        elif edit == "observe_pickle":
+            import pickle
+            pf = ParquetFile(root)
+            observe(pf, case.get("observe", []), info)
+            pf2 = pickle.loads(pickle.dumps(pf))
+            for what, h in (("the unpickled handle's metadata", pf2), ("the observed handle's metadata", pf)):
+                after, err = tree_of_bytes(pq, bytes(h.fmd.to_bytes()), what)
+                if err:
+                    return [err], info
+                compare(before[path], after, problems, pandas_json=True)
+        elif edit == "observe_handle_append":
+            pf = ParquetFile(root)
+            observe(pf, case.get("observe", []), info)
+            pf.write_row_groups(_frame(5, n, case["cat"]), compression=case["compression"])
+            after, err = read_tree(pq, path)
+            if err:
+                return [err], info
+            compare(before[path], after, problems, rgs=("append", 1), num_rows="changed", pandas_json=True)
+            ParquetFile(root).to_pandas()
+        elif edit == "input_of_many":
+            # a second dataset of the same shape next to the first; both handles are INPUT of a multi-file open / merge
+            root2 = root + "-b"
+            shutil.rmtree(root2, ignore_errors=True)
+            write(root2, _frame(n, 100, case["cat"]), file_scheme="hive", row_group_offsets=[0, n // 2], compression=case["compression"],
+                  custom_metadata={"other": "o"})
+            t2, err = read_tree(pq, os.path.join(root2, "_metadata"))
+            if err:
+                return [err], info
+            write_tree(pq, os.path.join(root2, "_metadata"), decorate(t2, d))       # same writer, same decoration: same schema
+            try:
+                pf, pfb = ParquetFile(root), ParquetFile(root2)
+                observe(pf, case.get("observe", [])[:2], info)
+                if case.get("many_op", "").startswith("merge"):
+                    merge([pf, pfb])
+                else:
+                    ParquetFile([pf, pfb]).to_pandas()
+                after, err = tree_of_bytes(pq, bytes(pf.fmd.to_bytes()), "the input handle's metadata after it was given to %s" % case.get("many_op"))
+                if err:
+                    return [err], info
+                compare(before[path], after, problems, pandas_json=True)
+                # ... and what it writes afterwards (an append through the input handle) leaves a dataset that opens and has the old row groups
+                pf.write_row_groups(_frame(5, n, case["cat"]), compression=case["compression"])
+                after, err = read_tree(pq, path)
+                if err:
+                    return [err], info
+                compare(before[path], after, problems, rgs=("append", 1), num_rows="changed", pandas_json=True)
+                if len(ParquetFile(root).to_pandas()) != n + 5:
+                    problems.append("the dataset re-opened after the append through the input handle has not %d rows" % (n + 5))
+            finally:
+                shutil.rmtree(root2, ignore_errors=True)
+                for fn in ("_metadata", "_common_metadata"):
+                    try:
+                        os.unlink(os.path.join(os.path.dirname(root), fn))
+                    except OSError:
+                        pass
     except Exception as e:   # noqa
         info["raised"] = "%s: %s" % (type(e).__name__, str(e)[:200])
         problems.append("edit path raised on a legal foreign footer: " + info["raised"])
